@@ -81,6 +81,8 @@ def parse_output(out, res):
 def run_tlc(module, cfg, run, env=None, workers=16, timeout=1500, coverage=False, simulate=None, depth=None, extra=(), dfs=False, deadlock=False, seed=None, spec_dir=None, tag=None):
     """Run TLC on spec/<module>.tla with spec/<cfg> in a scratch metadir."""
     res = TlcResult()
+    if getattr(run, "tier", "") == "thorough":
+        timeout *= 4  # thorough tiers batch far more per invocation, and sweeps run several of them side by side
     meta = run.sub("tlc_meta_%s_%d" % (tag or module, int(time.time() * 1000) % 100000000))
     os.makedirs(meta, exist_ok=True)
     sd = spec_dir or SPEC_DIR
